@@ -11,9 +11,11 @@ LEVEL = "model_checking"
 PER_ATOM = ("atcoords", "atcorenums", "atfrozen", "atgradient", "atmasses", "atnums")
 
 
-def _mo():
+def _mo(v="MO"):
     from iodata.orbitals import MolecularOrbitals
 
+    if v == "MO-no-occs":  # orbitals that carry no occupation numbers: their electron count and spin polarisation are unknown
+        return MolecularOrbitals("restricted", 2, 2, energies=np.array([-0.5, 0.25]))
     return MolecularOrbitals("restricted", 2, 2, occs=np.array([2.0, 1.0]))
 
 
@@ -36,7 +38,7 @@ MENU = {
     "charge": [None, 0, 1, -0.5],
     "nelec": [None, 2, 9, 1.5],
     "spinpol": [None, 0, 1],
-    "mo": [None, "MO"],
+    "mo": [None, "MO", "MO-no-occs"],
     "atcoords": [None, 2, 3, 0],
     "atmasses": [None, 2, 3, 0],
     "atgradient": [None, 2, 3],
@@ -55,7 +57,7 @@ def value(name, v):
     if name == "atcorenums":
         return np.array(v, dtype=float)
     if name == "mo":
-        return _mo()
+        return _mo(v)
     if name in ("atcoords", "atmasses", "atgradient", "atfrozen"):
         return arr(name, v)
     return v
@@ -168,7 +170,7 @@ def hidden(obj):
     return tuple(
         _a(g(obj, n))
         for n in ("_atcorenums", "_charge", "_nelec", "_spinpol", "atnums", "atcoords", "atmasses", "atgradient", "atfrozen")
-    ) + (g(obj, "mo") is not None,)
+    ) + (g(obj, "mo") is not None, g(obj, "mo") is not None and g(obj, "mo").occs is not None)
 
 
 def canon(st: State):
@@ -190,6 +192,7 @@ def observe(obj, order=0):
         except Exception as exc:  # noqa: BLE001 - reading a property must never fail; reported by check_state
             out[n] = f"RAISES {type(exc).__name__}"
     out["mo"] = obj.mo is not None
+    out["mo_occs"] = obj.mo is not None and obj.mo.occs is not None
     return out
 
 
@@ -371,8 +374,11 @@ class Oracle:
                               f"[{hist_str(hist)}]: core charges never set explicitly, atnums={None if want is None else want.tolist()} but atcorenums={None if got is None else got.tolist()}")
         # I4
         if o["mo"]:
-            mo = _mo()
-            ok = close(o["nelec"], float(mo.nelec)) and close(o["spinpol"], float(mo.spinpol))
+            mo = _mo("MO" if o["mo_occs"] else "MO-no-occs")
+            if o["mo_occs"]:
+                ok = close(o["nelec"], float(mo.nelec)) and close(o["spinpol"], float(mo.spinpol))
+            else:
+                ok = o["nelec"] is None and o["spinpol"] is None  # as unknown as the orbitals' own values
             ctx.outcome("I4", "equal-to-orbitals" if ok else "broken")
             if not ok:
                 ctx.violation("I4", "I4:nelec/spinpol!=orbitals", {"history": hist_str(hist), "hist": hist},
